@@ -35,4 +35,7 @@ def run(ctx):
     ctx.explain("E-VNM.dup: set_var_name rejects a present name exactly when it belongs to a different variable (the error is "
                 "built on the `owner != var` edge only).")
     evnm2.check_duplicate_test(ctx, F)
+    ctx.explain("E-VNM.key: the key type of the name index (Unowned<str>) compares and hashes by content through hand-written "
+                "impls (`**self`), as its Borrow<str> lookups require; a derived impl would use the pointer.")
+    evnm2.check_key_type(ctx, F)
     ctx.not_decided = "the bijection over call sequences as behaviour; that adding variables preserves functions"
